@@ -176,11 +176,18 @@ def _deliveries(reads):
         def core(pgn, pr, s, dd, ts, data, raw, ac=False):
             got.append(bytes(raw))
             if raw[10] % 4 == 0:
-                raise ValueError("payload rejected by the PGN decoder")
+                # whatever the per-PGN decoders raise: a value out of range, an unsupported PGN type (a bare Exception), a frame too short
+                # for its own header (IndexError), a lookup that fails (KeyError)
+                raise [ValueError, Exception, IndexError, KeyError, AssertionError][raw[11] % 5]("payload rejected by the PGN decoder")
             return None
         c.decoder._decode = core
         for _ in range(len(reads)):
-            await c._receive_impl()
+            try:
+                await c._receive_impl()
+            except Exception:
+                # an exception that escapes from the receive path makes the receive loop give the link up: what is buffered, and every
+                # packet that follows, is lost
+                break
             mx = max(mx, len(c._buffer))
         c._process_queue_task.cancel()
         return got, mx
@@ -245,6 +252,10 @@ def search(ctx, broken, corr_broken):
         else:
             s = bytes(rnd.choice([0x11, 0x55, 0xaa, 0xaa]) for _ in range(rnd.randrange(100, 900)))
             s = s.replace(b"\xaa\x55", b"\xaa\x11") if rnd.random() < 0.7 else s
+            if rnd.random() < 0.4:
+                # one half marker and then a long run without any 0xaa (a stuck line): nothing of it can start a packet
+                s = bytes(rnd.choice([0x11, 0x00]) for _ in range(rnd.randrange(0, 30))) + b"\xaa" + bytes(rnd.choice([0x11, 0x00, 0x55, 0x01]) for _ in range(rnd.randrange(100, 900)))
+                s = s.replace(b"\xaa\x55", b"\xaa\x11")
             reads = segment(rnd, s)
             got, mx = _deliveries(reads)
             if mx > 60:
